@@ -24,7 +24,7 @@ type c14 struct{}
 func (c14) ID() string { return "C14" }
 func (c14) Runs(tier string) int {
 	if tier == "thorough" {
-		return 60000
+		return 300000
 	}
 	return 1500
 }
